@@ -87,6 +87,16 @@ def strengthsUndSign (A : AMat Int n) : Vector Int n × Vector Int n × Int × I
   let N : AMat Int n := AMat.ofFn fun i j => if W.get i j < 0 then W.get i j else 0
   (Vector.ofFn fun j => colSum P j, Vector.ofFn fun j => colSum N j, total P, total N)
 
+/-- `jdegree`: `J[id[i], od[i]] += 1` — the number of nodes with in-degree `a` and out-degree `b` -/
+def jdegCell (A : AMat Int n) (a b : Int) : Int :=
+  fsum fun i => if vget (degreesDir A).1 i = a ∧ vget (degreesDir A).2.1 i = b then 1 else 0
+
+/-- `(J_od, J_id, J_bl)` = `(sum(triu(J,1)), sum(tril(J,-1)), sum(diag(J)))`: nodes with `od > id`, `id > od`, `id = od` -/
+def jdegSummary (A : AMat Int n) : Int × Int × Int :=
+  (fsum fun i => if vget (degreesDir A).1 i < vget (degreesDir A).2.1 i then 1 else 0,
+   fsum fun i => if vget (degreesDir A).1 i > vget (degreesDir A).2.1 i then 1 else 0,
+   fsum fun i => if vget (degreesDir A).1 i = vget (degreesDir A).2.1 i then 1 else 0)
+
 /-! ## physical_connectivity.py -/
 
 /-- `density_dir`: `k` = number of nonzero cells, `kden = k / (n*n - n)` (Python `/`: raises for n ≤ 1) -/
@@ -189,6 +199,12 @@ def nanToZero : XRat → XRat | .nan => .fin 0 | x => x
 def flowCoef (A : AMat Int n) : Vector XRat n × Vector Int n :=
   (Vector.ofFn fun v => nanToZero (flowNode A v).1, Vector.ofFn fun v => (flowNode A v).2)
 
+/-- value of a finite `XRat` (0 otherwise) -/
+def xval : XRat → Rat | .fin q => q | _ => 0
+
+/-- `FC = np.mean(fc)` (every `fc` is finite after the `nan -> 0` step) -/
+def flowFC (A : AMat Int n) : XRat := xdiv (fsum fun v => xval (vget (flowCoef A).1 v)) (n : Rat)
+
 /-! ## core.py -/
 
 def degTotal (A : AMat Int n) : Vector Int n := (degreesDir A).2.2
@@ -206,6 +222,30 @@ def richClub (A : AMat Int n) (deg : Vector Int n) : List (XRat × Int × Int) :
 
 def richClubBu (A : AMat Int n) : List (XRat × Int × Int) := richClub A (degreesUnd A)
 def richClubBd (A : AMat Int n) : List (XRat × Int × Int) := richClub A (degTotal A)
+
+/-- `CIJ.flat` -/
+def flatEntries (A : AMat Int n) : List Int := (List.finRange n).flatMap fun i => (List.finRange n).map fun j => A.get i j
+
+/-- `np.sort(x)[::-1]` -/
+def sortDesc (l : List Int) : List Int := l.mergeSort fun a b => decide (b ≤ a)
+
+/-- `rich_club_wu/wd` at level `k` (0-based): nodes with `deg >= k+1` are kept; `nan` when no node is dropped;
+`Rw = (weight inside the club) / (sum of the Er largest weights of the whole network)`, `Er` = connections inside the club -/
+def richLevelW (A : AMat Int n) (deg : Vector Int n) (wrank : List Int) (k : Nat) : XRat :=
+  if fany fun i => decide (vget deg i < (k : Int) + 1) then
+    let Wr : Int := fsum fun i => fsum fun j => if vget deg i ≥ (k : Int) + 1 ∧ vget deg j ≥ (k : Int) + 1 then A.get i j else 0
+    let Er : Nat := fsum fun i => fsum fun j =>
+      if vget deg i ≥ (k : Int) + 1 ∧ vget deg j ≥ (k : Int) + 1 ∧ A.get i j ≠ 0 then 1 else 0
+    xdiv Wr (((wrank.take Er).sum : Int) : Rat)
+  else .nan
+
+def richClubW (A : AMat Int n) (deg : Vector Int n) : List XRat :=
+  (List.range (fmax fun i => (vget deg i).toNat)).map (richLevelW A deg (sortDesc (flatEntries A)))
+
+/-- `rich_club_wu`: `deg = sum(CIJ != 0, axis=0)` -/
+def richClubWu (A : AMat Int n) : List XRat := richClubW A (degreesUnd A)
+/-- `rich_club_wd`: `deg = sum(CIJ != 0, axis=0) + sum(CIJ.T != 0, axis=0)` -/
+def richClubWd (A : AMat Int n) : List XRat := richClubW A (degTotal A)
 
 /-- the three sums of `assortativity_*` over the listed edges: `(K, Σ x·y, Σ (x+y), Σ (x²+y²))` -/
 def assortSums (edge : Fin n → Fin n → Bool) (x y : Vector Int n) : Int × Int × Int × Int :=
@@ -266,6 +306,12 @@ def step (line : String) : String :=
     | "strengths_und_sign" =>
       let r := strengthsUndSign A
       some s!"Spos={showVec si r.1} Sneg={showVec si r.2.1} vpos={r.2.2.1} vneg={r.2.2.2}"
+    | "jdegree" =>
+      let d := degreesDir A
+      let sz := (fmax fun i => max (vget d.1 i).toNat (vget d.2.1 i).toNat) + 1
+      let cells := (List.range sz).flatMap fun a => (List.range sz).map fun b => toString (jdegCell A (a : Nat) (b : Nat))
+      let r := jdegSummary A
+      some s!"J={",".intercalate cells} J_od={r.1} J_id={r.2.1} J_bl={r.2.2}"
     | "density_dir" => (match densityDir A with
       | .error e => some (errLine e) | .ok r => some s!"kden={showRat r.1} n={r.2.1} k={r.2.2}")
     | "density_und" => (match densityUnd A with
@@ -280,13 +326,15 @@ def step (line : String) : String :=
       some s!"gt={showMatBy XRat.str (gtom A s)}"
     | "flow_coef_bd" =>
       let r := flowCoef A
-      some s!"fc={showVec XRat.str r.1} total_flo={showVec si r.2}"
+      some s!"fc={showVec XRat.str r.1} total_flo={showVec si r.2} FC={(flowFC A).str}"
     | "rich_club_bu" =>
       let r := richClubBu A
       some s!"R={showList (fun t => t.1.str) r} Nk={showList (fun t => si t.2.1) r} Ek={showList (fun t => si t.2.2) r}"
     | "rich_club_bd" =>
       let r := richClubBd A
       some s!"R={showList (fun t => t.1.str) r} Nk={showList (fun t => si t.2.1) r} Ek={showList (fun t => si t.2.2) r}"
+    | "rich_club_wu" => some s!"Rw={showList XRat.str (richClubWu A)}"
+    | "rich_club_wd" => some s!"Rw={showList XRat.str (richClubWd A)}"
     | "assortativity_bin" => do
       let f ← natArg "flag"
       match assortativityBin A f with
